@@ -408,6 +408,11 @@ class Executor:
             return z3.BoolVal(bool(v.items))
         if isinstance(v, PyConst):
             return z3.BoolVal(bool(v.v))
+        if isinstance(v, BoundMethod) and self.lenient and isinstance(v.recv, Val) and isinstance(v.recv.t, Obj) \
+                and self.reg.find_method(v.recv.t.cls, v.name) is None:
+            # an attribute the contract does not declare (not a method under contract): its truth value is unknown
+            self.assume_log(f"lenient: truth value of the undeclared attribute {v.recv.t.cls}.{v.name} is unknown")
+            return fresh("unk", z3.BoolSort())
         raise Untranslatable(f"truth of {v!r}")
 
     # ------------------------------------------------------------------ heap primitives
@@ -896,6 +901,13 @@ class Executor:
             if isinstance(t, Tup) and t.names and name in t.names:
                 i = t.names.index(name)
                 return self.valid_ref(st, Val(t.elts[i], t.proj(obj.z, i)))
+            if isinstance(t, Tup) and (t.nm, name) in self.reg.tuple_props:
+                fnode, _ = self.src.find_in(self.reg.tuple_props[(t.nm, name)], f"{t.nm}.{name}")
+                body = [b for b in fnode.body if not (isinstance(b, ast.Expr) and isinstance(b.value, ast.Constant))]
+                if len(body) != 1 or not isinstance(body[0], ast.Return) or body[0].value is None:
+                    raise Untranslatable(f"property {t.nm}.{name} is not a one-line `return <expr>`")
+                s2 = State({"self": obj}, st.heap, st.pc, st.next_ref, st.ghost, st.labels)
+                return self.ev1(body[0].value, s2)[0]
             return BoundMethod(obj, name)
         if isinstance(obj, tuple) and obj and obj[0] == "super":
             return BoundMethod(obj, name)
